@@ -25,7 +25,10 @@ def main() -> int:
 
     nodes = inst["nodes"]
     desc = tuple(inst["rule"])
-    arch = SymArch(nodes, tag="e")
+    if inst.get("window"):
+        arch = SymArch(nodes, tag="e", window=[tuple(p) for p in inst["window"]], background=[tuple(p) for p in inst.get("background", [])])
+    else:
+        arch = SymArch(nodes, tag="e")
 
     def fn():
         ndset.reset()
